@@ -1,6 +1,7 @@
 //! implrun: executes case files against the real cstree (path dependency on /repo/cstree).
 //! One case per input line, one canonical result line per case on stdout.
 mod builder_cases;
+mod conc_cases;
 mod fmt_cases;
 mod green_cases;
 mod intern_cases;
@@ -49,6 +50,7 @@ fn run_line(line: &str) -> String {
         "G" => green_cases::run_g(&args),
         "Y" => green_cases::run_y(&args),
         "I" => intern_cases::run_case(&args),
+        "K" => conc_cases::run_k(&args),
         "Q" => token_cases::run_q(&args),
         "X" => text_cases::run_x(&args),
         "Z" => serde_cases::run_z(&args),
@@ -69,6 +71,9 @@ fn run_line(line: &str) -> String {
 fn main() {
     // panics are expected and caught; keep stderr quiet
     std::panic::set_hook(Box::new(|_| {}));
+    // warm up lazily initialised runtime state (thread spawning, panic machinery) so that it is not counted as a leak
+    let _ = std::thread::spawn(|| ()).join();
+    let _ = syn::catch(|| panic!("warm-up"));
     let path = std::env::args().nth(1).expect("usage: implrun <casefile>");
     let f = std::io::BufReader::new(std::fs::File::open(path).expect("open case file"));
     let out = std::io::stdout();
